@@ -3,6 +3,11 @@
 import json, re, os
 R = "/verif"
 ST = {
+ "toShortForm_sound": "every opcode the compiler's toShortForm shortens is, in the regenerated opcode table, an X_L opcode with a 4-byte operand whose partner X is the opcode one below with a 1-byte operand",
+ "toShortForm_complete": "every X_L / X pair of the opcode table with a 4-byte / 1-byte offset is shortened by the translated toShortForm",
+ "toShortForm_is_pred": "the short form of a jump opcode is the opcode minus one, for every opcode",
+ "negateJmp_involutive": "the translated negateJmp is an involution wherever it is defined",
+ "readVarUint_eq": "BinReader.ReadVarUint translated from binaryReader.go returns the value the model's readVarUint decodes, whenever enough bytes are present (no minimality check)",
  "getVarIntSize_eq": "io.getVarIntSize, translated from size.go on this run, equals the model's varUintSize for every value below 2^32",
  "txFeePerByte_eq": "Transaction.FeePerByte, translated from source on this run, is the model's NetworkFee/Size",
  "mempoolItemCompare_eq": "mempool item.Compare, translated from mem_pool.go on this run, equals the model's compare for every pair of transactions",
